@@ -11,25 +11,25 @@ set_option linter.unusedVariables false
 /-! ### the tuple comparison loop -/
 
 /-- body of the inner `for si in range(BIT_SIZE)` loop -/
-def cmpBody (neq : Bool) (l r : List Val) (idx : Nat) (k : Nat) (s : BExp) : Except String (ForInStep BExp) :=
+def cmpBody (l r : List Val) (idx : Nat) (k : Nat) (s : BExp) : Except String (ForInStep BExp) :=
   match l[idx + k]?, r[idx + k]? with
-  | some (.atom a), some (.atom b) => pure (ForInStep.yield (BExp.and [s, if neq then bNeq a b else bEq a b]))
+  | some (.atom a), some (.atom b) => pure (ForInStep.yield (BExp.and [s, bEq a b]))
   | _, _ => throw "tuple comparison on nested values"
 
 /-- number of positions an element type takes in the loop -/
 def elemSize (t : Ty) : Except String Nat := match t with | .bool => pure 1 | _ => sizeOf! t
 
-theorem tupleCmpLoop_cons (neq : Bool) (l r : List Val) (t : Ty) (ts : List Ty) (idx : Nat) (c : BExp) :
-    tupleCmpLoop neq l r (t :: ts) idx c =
+theorem tupleCmpLoop_cons (l r : List Val) (t : Ty) (ts : List Ty) (idx : Nat) (c : BExp) :
+    tupleCmpLoop l r (t :: ts) idx c =
       elemSize t >>= fun n =>
-        forIn (List.range' 0 n) c (cmpBody neq l r idx) >>= fun c1 => tupleCmpLoop neq l r ts (idx + n) c1 := by
+        forIn (List.range' 0 n) c (cmpBody l r idx) >>= fun c1 => tupleCmpLoop l r ts (idx + n) c1 := by
   have key : ∀ n, (forIn [:n] c fun k __s =>
               match l[idx + k]?, r[idx + k]? with
               | some (Val.atom a), some (Val.atom b) =>
-                (pure (ForInStep.yield (BExp.and [__s, if neq = true then bNeq a b else bEq a b])) : Except String _)
+                (pure (ForInStep.yield (BExp.and [__s, bEq a b])) : Except String _)
               | x, x_1 => do
                 throw "tuple comparison on nested values"
-                pure (ForInStep.yield __s)) = forIn (List.range' 0 n) c (cmpBody neq l r idx) := by
+                pure (ForInStep.yield __s)) = forIn (List.range' 0 n) c (cmpBody l r idx) := by
     intro n
     rw [Std.Legacy.Range.forIn_eq_forIn_range']
     simp only [Std.Legacy.Range.size, Nat.sub_zero, Nat.add_sub_cancel, Nat.div_one]
@@ -57,7 +57,7 @@ theorem decide_cons_eq (x y : Bool) (A B : List Bool) :
 
 theorem cmpInner (ρ : QV.Env) (l r : List Val) (idx : Nat) :
     ∀ (n s : Nat) (c c' : BExp),
-      forIn (List.range' s n) c (cmpBody false l r idx) = Except.ok c' →
+      forIn (List.range' s n) c (cmpBody l r idx) = Except.ok c' →
       ∃ as bs : List BExp, as.length = n ∧ bs.length = n ∧
         (l.drop (idx + s)).take n = as.map Val.atom ∧ (r.drop (idx + s)).take n = bs.map Val.atom ∧
         c'.eval ρ = (c.eval ρ && decide (evalBits ρ as = evalBits ρ bs)) := by
@@ -77,7 +77,6 @@ theorem cmpInner (ρ : QV.Env) (l r : List Val) (idx : Nat) :
     · rename_i a b hl hr
       simp only [pure, Except.pure, Except.ok.injEq] at h1
       subst h1
-      simp only [Bool.false_eq_true, if_false] at h2
       obtain ⟨as, bs, ha, hb, hla, hrb, hev⟩ := ih (s + 1) _ _ h2
       refine ⟨a :: as, b :: bs, by simp [ha], by simp [hb], ?_, ?_, ?_⟩
       · rw [← Nat.add_assoc] at hla
@@ -90,7 +89,7 @@ theorem cmpInner (ρ : QV.Env) (l r : List Val) (idx : Nat) :
     · simp [throw, throwThe, MonadExceptOf.throw] at h1
 
 theorem cmpOuter (ρ : QV.Env) (l r : List Val) :
-    ∀ (ts : List Ty) (idx : Nat) (c c' : BExp), tupleCmpLoop false l r ts idx c = .ok c' →
+    ∀ (ts : List Ty) (idx : Nat) (c c' : BExp), tupleCmpLoop l r ts idx c = .ok c' →
       ∃ as bs : List BExp, as.length = Ty.bitsList ts ∧ bs.length = Ty.bitsList ts ∧
         (l.drop idx).take (Ty.bitsList ts) = as.map Val.atom ∧
         (r.drop idx).take (Ty.bitsList ts) = bs.map Val.atom ∧
@@ -144,6 +143,39 @@ theorem flatten_of_take (l : List Val) (as : List BExp) (h : l.take as.length = 
   rw [List.length_eq_zero_iff.mp this, List.append_nil]
 
 
+/-- the loop of the tuple comparison, run on two values that denote tuples of one type, decides python's
+equality of the two tuples -/
+theorem tupleCmp_eval (ρ : QV.Env) (a b : List Val) (sa sb : List TVal)
+    (hwa : TVal.wfList sa = true) (hwb : TVal.wfList sb = true)
+    (hba : evalBits ρ (Val.flattenList a) = TVal.bitsList sa)
+    (hbb : evalBits ρ (Val.flattenList b) = TVal.bitsList sb)
+    (htys : TVal.tyList sa = TVal.tyList sb) (c : BExp)
+    (hloop : tupleCmpLoop a b (TVal.tyList sa) 0 .tt = .ok c) : c.eval ρ = TVal.beqList sa sb := by
+  obtain ⟨as, bs, hla, hlb, hta, htb, hev⟩ := cmpOuter ρ a b _ 0 .tt c hloop
+  simp only [List.drop_zero] at hta htb
+  have hna : (Val.flattenList a).length = as.length := by
+    have := congrArg List.length hba
+    rw [TVal.bitsList_length] at this
+    simpa [evalBits, hla] using this
+  have hnb : (Val.flattenList b).length = bs.length := by
+    have := congrArg List.length hbb
+    rw [TVal.bitsList_length, ← htys] at this
+    simpa [evalBits, hlb] using this
+  rw [← hla] at hta
+  rw [← hlb] at htb
+  have hfa := flatten_of_take a as hta hna
+  have hfb := flatten_of_take b bs htb hnb
+  rw [hfa] at hba
+  rw [hfb] at hbb
+  rw [hev, hba, hbb]
+  simp only [BExp.eval, Bool.true_and]
+  have := TVal.beqList_iff_bits sa sb htys hwa hwb
+  by_cases hb : TVal.bitsList sa = TVal.bitsList sb
+  · simp [hb, this.mpr hb]
+  · have : TVal.beqList sa sb = false := by
+      rw [← Bool.not_eq_true]; exact fun h => hb (this.mp h)
+    simp [hb, this]
+
 /-! ### the comparison forms -/
 
 set_option hygiene false in
@@ -152,8 +184,8 @@ macro "cmp_startT" : tactic => `(tactic| (
   rw [tr] at h
   simp only [run_bind_ok] at h
   obtain ⟨⟨lt, lv⟩, s1, h1, ⟨rt, rv⟩, s2, h2, h3⟩ := h
-  simp only [wellT, Bool.and_eq_true, Bool.not_eq_true'] at hw
-  obtain ⟨⟨hwl, hwr⟩, hwn⟩ := hw
+  simp only [wellT, Bool.and_eq_true] at hw
+  obtain ⟨hwl, hwr⟩ := hw
   obtain ⟨svl, hsl, hdl⟩ := ihl _ _ _ _ hwl h1
   obtain ⟨svr, hsr, hdr⟩ := ihr _ _ _ _ hwr h2))
 
@@ -256,37 +288,14 @@ theorem soundT_cmp_eq (ρ : QV.Env) (env : Front.Env) (σ : TEnv) (l r : PExp)
         Bool.not_eq_true, Bool.or_eq_false_iff, Bool.not_eq_false'] at h3
       obtain ⟨⟨hne, _⟩, hty, _, _, ⟨rfl, rfl⟩, c, _, ⟨hloop, rfl⟩, h4, _⟩ := h3
       cases h4
-      have htys := Ty.eq_of_beqList _ _ hty
-      obtain ⟨as, bs, hla, hlb, hta, htb, hev⟩ := cmpOuter ρ a b _ 0 .tt c hloop
-      simp only [List.drop_zero] at hta htb
-      have hna : (Val.flattenList a).length = as.length := by
-        have := congrArg List.length hba
-        rw [TVal.bitsList_length] at this
-        simpa [evalBits, hla] using this
-      have hnb : (Val.flattenList b).length = bs.length := by
-        have := congrArg List.length hbb
-        rw [TVal.bitsList_length, ← htys] at this
-        simpa [evalBits, hlb] using this
-      rw [← hla] at hta
-      rw [← hlb] at htb
-      have hfa := flatten_of_take a as hta hna
-      have hfb := flatten_of_take b bs htb hnb
-      rw [hfa] at hba
-      rw [hfb] at hbb
       have hne' : sa.isEmpty = false := by
         cases sa with
         | nil => simp [TVal.tyList] at hne
         | cons _ _ => rfl
       refine ⟨.bool (TVal.beqList sa sb), by simp [semT, hsl, hsr, cmpT, hty, hne'], ?_⟩
       apply DenT.mk_bool
-      rw [hev, hba, hbb]
-      simp only [BExp.eval, Bool.true_and]
-      have := TVal.beqList_iff_bits sa sb htys hwa hwb
-      by_cases hb : TVal.bitsList sa = TVal.bitsList sb
-      · simp [hb, this.mpr hb]
-      · have : TVal.beqList sa sb = false := by
-          rw [← Bool.not_eq_true]; exact fun h => hb (this.mp h)
-        simp [hb, this]
+      simp only [Bool.false_eq_true, if_false]
+      exact tupleCmp_eval ρ a b sa sb hwa hwb hba hbb (Ty.eq_of_beqList _ _ hty) c hloop
 
 theorem soundT_cmp_neq (ρ : QV.Env) (env : Front.Env) (σ : TEnv) (l r : PExp)
     (ihl : SoundT ρ env σ l) (ihr : SoundT ρ env σ r) : SoundT ρ env σ (.cmp "NotEq" l r) := by
@@ -319,8 +328,23 @@ theorem soundT_cmp_neq (ρ : QV.Env) (env : Front.Env) (σ : TEnv) (l r : PExp)
     | char b hb => char_eqT qNeq qNeq_eval (decide (val ρ a ≠ val ρ b))
     | tup b sb _ _ => cmp_mixed
   | tup a sa hwa hba =>
-    -- `!=` on tuples is translated as "every bit differs": excluded by `wellT`
-    simp [hsl, isTupleO] at hwn
+    cases hdr with
+    | bool b => cmp_mixed
+    | int b => cmp_mixed
+    | char b hb => cmp_mixed
+    | tup b sb hwb hbb =>
+      simp only [run_ite_ok, run_throw_ok, and_false, false_or, run_bind_ok, run_pure_ok, run_lift_ok,
+        Bool.not_eq_true, Bool.or_eq_false_iff, Bool.not_eq_false'] at h3
+      obtain ⟨⟨hne, _⟩, hty, _, _, ⟨rfl, rfl⟩, c, _, ⟨hloop, rfl⟩, h4, _⟩ := h3
+      cases h4
+      have hne' : sa.isEmpty = false := by
+        cases sa with
+        | nil => simp [TVal.tyList] at hne
+        | cons _ _ => rfl
+      refine ⟨.bool (!TVal.beqList sa sb), by simp [semT, hsl, hsr, cmpT, hty, hne'], ?_⟩
+      apply DenT.mk_bool
+      simp only [if_true, BExp.eval]
+      rw [tupleCmp_eval ρ a b sa sb hwa hwb hba hbb (Ty.eq_of_beqList _ _ hty) c hloop]
 
 set_option hygiene false in
 macro "cmp_ordT" qf:term:max spec:term:max res:term:max : tactic => `(tactic| (
